@@ -67,6 +67,7 @@ COMP = Component(
     spec="AllocOrder", name="PreservedOrderAllocator", build=build, methods=lambda cfg: METHODS,
     has_arg=lambda m: m in ("free", "free_idx"), gen_arg=gen_arg, want=want, tracker=Tracker,
     module=__name__, trace_extra=STEP_EXTRA, trace_extra_names=STEP_EXTRA_NAMES,
+    shadow=lambda cfg: ["alloc", "free", "free_idx"],
 )
 
 
